@@ -287,3 +287,30 @@ def enumerate_mux(pol="nonneg"):
                 nn = list(nodes) + [N("M", "PMux", parents, rs_list=rs_list, only=("rs",)), N("L", "ILoad" if rs_list else "PLoad", "M", only=())]
                 out["mux%d:%s:%s" % (k, "+".join(combo), "list" if rs_list else "scalar")] = S(*nn)
     return out
+
+
+def real_loop_shapes():
+    """Feed-forward systems (currents do not feed back into voltages) for the real-loop harness: the real initial iterate
+    and the real sweeps, symbolic parameters.  Off-states and voltages travel one level per sweep here."""
+    c = {}
+    c["conv-linreg-loads"] = S(N("S", "Source", only=()), N("C", "Converter", "S"), N("G", "LinReg", "C"), N("L1", "PLoad", "G"), N("L2", "ILoad", "C"),
+                               N("L3", "RLoad", "S"))
+    c["vloss-rectd-chain"] = S(N("S", "Source", only=()), N("V", "VLoss", "S"), N("D", "RectD", "V"), N("C", "Converter", "D"), N("L", "PLoad", "C"))
+    c["switch-iload"] = S(N("S", "Source"), N("W", "PSwitch", "S"), N("R", "RLoss", "W"), N("L", "ILoad", "R"))
+    c["mux-dead-first"] = S(N("S1", "Source", pol="nonneg", only=()), N("S2", "Source", only=()), N("C", "Converter", "S2", only=()),
+                            N("M", "PMux", ["S1", "C"], rs_list=True), N("G", "LinReg", "M", only=("vdrop",)), N("L", "ILoad", "G", only=()))
+    c["mux3-dead-patterns"] = S(N("S1", "Source", pol="nonneg", only=()), N("S2", "Source", pol="nonneg", only=()), N("S3", "Source", only=()),
+                                N("M", "PMux", ["S1", "S2", "S3"], rs_list=True, only=("rs",)), N("L", "ILoad", "M", only=()), N("L2", "ILoad", "S2", only=()))
+    c["neg-chain"] = S(N("S", "Source", pol="neg", only=()), N("G", "LinReg", "S", pol="neg"), N("W", "PSwitch", "G", only=("ig",)), N("L", "RLoad", "W"))
+    return c
+
+
+def real_loop_phase_shapes():
+    ph = ["a", "b"]
+    c = {}
+    c["conv-inactive-deep"] = S(N("S", "Source", only=()), N("C", "Converter", "S", phases=["a"], only=("iis",)), N("G", "LinReg", "C", only=("iis",)),
+                                N("C2", "Converter", "G", only=()), N("L", "PLoad", "C2", phases=["a"], only=("pwrs",)), N("L2", "ILoad", "S", phases=["b"], only=("iis",)),
+                                phases=ph)
+    c["mux-input-inactive"] = S(N("S", "Source", only=()), N("W1", "PSwitch", "S", phases=["a"], only=("iis",)), N("W2", "PSwitch", "S", only=()),
+                                N("M", "PMux", ["W1", "W2"], only=()), N("L", "ILoad", "M", only=()), phases=ph)
+    return c
